@@ -104,6 +104,10 @@ def container(val, kind, names=None):
         return pd.Series(a.ravel().copy())
     if kind == "scalar":
         return float(a.ravel()[0])
+    if kind in ("uint8", "int32", "int64", "float32"):
+        return a.astype(kind)
+    if kind == "frame_int64":
+        return pd.DataFrame(a.astype("int64"), columns=names or ["c%d" % i for i in range(a.shape[1])])
     raise ValueError(kind)
 
 
@@ -378,6 +382,13 @@ def _run_case(case, ctx):
 
 def run_containers(name, params, calls, d, rng, key, ctx):
     k = zoo.kind(name)
+    typed = False
+    if k != "y" and rng.random() < 0.35:
+        # whole-number histories in [0, 200]: the same numbers may arrive with a narrow integer dtype
+        allv = np.concatenate([np.asarray(v, dtype=float).ravel() for _, v in calls])
+        lo_, hi_ = float(allv.min()), float(allv.max())
+        calls = [(m_, np.round((np.asarray(v, dtype=float) - lo_) / (hi_ - lo_ + 1e-12) * 200.0)) for m_, v in calls]
+        typed = True
     if k == "y":
         kinds = ["int", "list", "array", "series", "array2d"]
 
@@ -399,9 +410,14 @@ def run_containers(name, params, calls, d, rng, key, ctx):
         else:
             kinds = ["flat_list", "list", "flat_array", "ndarray", "series", "frame", "view"]
 
+        if typed:
+            kinds = kinds + ["uint8", "int32", "int64", "frame_int64"]
+            ctx.count("typed_container_cases")
+
         def conv_for(kind_of):
             return lambda j, v: container(v, kind_of(j))
-    ref, _ = run_history(name, params, calls, key, conv_for(lambda j: kinds[-3] if k != "y" else "int"))
+    refkind = "int" if k == "y" else ("ndarray" if "ndarray" in kinds else kinds[0])
+    ref, _ = run_history(name, params, calls, key, conv_for(lambda j: refkind))
     runs = [(kk, conv_for(lambda j, kk=kk: kk)) for kk in kinds]
     mix = [kinds[int(i)] for i in rng.integers(0, len(kinds), size=len(calls))]
     runs.append(("mixed", conv_for(lambda j: mix[j])))
@@ -416,7 +432,7 @@ def run_containers(name, params, calls, d, rng, key, ctx):
                 cont_here = label if label != "mixed" else mix[j]
                 ctx.violation("C14/container/%s/%s" % (cont_here, "raised" if b.get("state") == "EXC" else "output"),
                               "%s: the same values passed as %s %s at call %d (%s = %r; as %s it is %r)" % (
-                                  name, cont_here, "raise %s" % exc if exc else "give a different output", j, kf, b.get(kf), kinds[-3] if k != "y" else "int", a.get(kf)),
+                                  name, cont_here, "raise %s" % exc if exc else "give a different output", j, kf, b.get(kf), refkind, a.get(kf)),
                               detector=name, params=params, container=cont_here, run=label, step=j)
                 break
     ctx.nontrivial = drift
